@@ -119,7 +119,7 @@ def targets(tier):
                    ensures=[("reply-is-accumulated-nothing-lost", ens_reply)], exc_ensures=[("blocker-re-raised", exc_reply)], raises=(CompileError, AssertionError, KeyError),
                    overrides=OV, field_types=FT,
                    note="ModuleResult and SCC objects are abstract identities; AssertionError: message shape is the worker's obligation; KeyError: scc ids are the coordinator's own"),
-            __import__("pyvc.runner", fromlist=["StaticCheck"]).StaticCheck("worker.replay_context", check_replay_context, note="ordering frame decided on the source")] + iface_targets() + impl_targets()
+            __import__("pyvc.runner", fromlist=["StaticCheck"]).StaticCheck("worker.replay_context", check_replay_context, note="ordering frame decided on the source")] + iface_targets() + impl_targets() + reload_targets() + budget_targets() + load_states_targets()
 
 
 # ---- every module of an SCC goes on from the interface phase to the implementation phase: the list
@@ -243,3 +243,173 @@ def impl_targets():
     return [Target("coord.process_stale_scc_implementation.result_entry", "mypy.build:process_stale_scc_implementation", setup_impl_entry,
                    loop_body=("for id, meta_file in zip(stale, meta_files)", None), ensures=[("diagnostics-returned-unless-ignored-cache-written-only-with-a-record", ens_impl_entry)],
                    raises=(KeyError,), overrides=ov, field_types=ft, forget_order_facts=True, note="one generic module, with and without a cache record (KeyError: graph closure is the caller's invariant)")]
+
+
+# ---- a worker learns the interfaces of the modules it depends on only from committed cache records: before
+# the modules of a fresh SCC are loaded in a worker, the meta of EVERY one of them is re-read (the copy in the
+# broadcast graph may predate what another worker has committed since)
+
+
+class FakeState4:
+    def reload_meta(self):
+        raise NotImplementedError
+
+
+def setup_reload(I):
+    import mypy.build as B
+
+    m1, m2 = I.make(TStr(), "mod1"), I.make(TStr(), "mod2")
+    I.ctx.assume(m1.t != m2.t)
+    s1, s2 = I.new_object(FakeState4), I.new_object(FakeState4)
+    # whatever the graph copy already says about the modules must not matter
+    for s, tag in ((s1, "1"), (s2, "2")):
+        s.fields["interface_hash"] = I.make(TBytes(), "interface_hash" + tag)
+        s.fields["meta"] = I.make(TAny(), "meta" + tag)
+    prev = I.make(TObj(B.SCC), "prev_scc")
+    prev.cands = [B.SCC]
+    prev.fields["mod_ids"] = SList([m1, m2])
+    prev.fields["id"] = I.make(TInt(), "prev_id")
+    prev.fields["deps"] = I.make(TSet(TInt()), "prev_deps")
+    ascc = I.make(TObj(B.SCC), "ascc")
+    ascc.cands = [B.SCC]
+    ascc.fields["deps"] = I.make(TSet(TInt()), "ascc_deps")
+    ascc.fields["id"] = I.make(TInt(), "ascc_id")
+    return {"args": [], "locals": {"prev_scc": prev, "graph": SDict([(m1, s1), (m2, s2)]), "ascc": ascc, "manager": I.make(TAny(), "manager")}, "s1": s1, "s2": s2}
+
+
+def ens_reload(I, env, res):
+    ev = [e[1] for e in I.ctx.events if e[0] == "reload_meta"]
+    return z3.BoolVal(len(ev) == 2 and ev[0] is env["s1"] and ev[1] is env["s2"])
+
+
+def reload_targets():
+    ov = {"contracts.coord:FakeState4.reload_meta": lambda I, a, k: (I.ctx.events.append(("reload_meta", a[0])), NONE)[1]}
+    return [Target("coord.maybe_load_deps.reload_meta", "mypy.build:maybe_load_deps", setup_reload, loop_body=("for prev_scc in fresh_sccs_to_load", "graph[mod_id].reload_meta()"),
+                   ensures=[("meta-of-every-module-of-a-fresh-scc-is-re-read", ens_reload)], raises=(), overrides=ov, field_types={},
+                   bounded="one generic fresh SCC with exactly two modules", note="per fresh SCC; the two-module shape stands for 'every module' (bounded)")]
+
+
+# ---- the implementation phase of a module starts with a fresh deferral budget: whatever passes the
+# interface phase used up must not count against the function bodies (the sequential build gives them the
+# full budget)
+
+
+class FakeChecker5:
+    can_skip_diagnostics: bool
+
+    def __init__(self):
+        pass
+
+
+class FakeTree5:
+    def local_definitions(self, impl_only=False):
+        raise NotImplementedError
+
+
+class FakeState5:
+    def type_checker(self):
+        raise NotImplementedError
+
+    def type_check_second_pass(self, todo=None, impl_only=False):
+        raise NotImplementedError
+
+    def finish_passes(self):
+        raise NotImplementedError
+
+    def detect_possibly_undefined_vars(self):
+        raise NotImplementedError
+
+
+def setup_budget(I):
+    mid = I.make(TStr(), "id")
+    chk = I.new_object(FakeChecker5)
+    chk.fields["can_skip_diagnostics"] = I.make(TBool(), "can_skip_diagnostics")
+    chk.fields["pass_num"] = I.make(TInt(), "pass_num_after_interface_phase")
+    chk.fields["deferred_nodes"] = SList([])  # empty after the interface phase, as it always is
+    opts = I.make(TAny(), "checker_options")
+    chk.fields["options"] = I.new_object(FakeChecker5)
+    chk.fields["options"].fields["preserve_asts"] = I.make(TBool(), "preserve_asts")
+    st = I.new_object(FakeState5)
+    tree = I.new_object(FakeTree5)
+    st.fields["tree"] = tree
+    I.ctx.ghost["checker"] = chk
+    return {"args": [], "locals": {"id": mid, "graph": SDict([(mid, st)]), "unfinished_modules": I.make(TSet(TStr()), "unfinished_modules"), "stale": SList([mid])}, "chk": chk}
+
+
+def second_pass_contract(I, args, kwargs):
+    chk = I.ctx.ghost["checker"]
+    pn = chk.fields["pass_num"]
+    dn = chk.fields["deferred_nodes"]
+    I.ctx.events.append(("type_check_second_pass", pn, len(dn.items) if isinstance(dn, SList) else None))
+    return I.make(TBool(), "more_passes")
+
+
+def ens_budget(I, env, res):
+    ev = [e for e in I.ctx.events if e[0] == "type_check_second_pass"]
+    if not ev:
+        return z3.BoolVal(True)  # diagnostics skipped for this module
+    e = ev[0]
+    return z3.And(e[1].t == 0 if isinstance(e[1], SInt) else z3.BoolVal(False), z3.BoolVal(e[2] == 0))
+
+
+def budget_targets():
+    ov = {"contracts.coord:FakeState5.type_checker": lambda I, a, k: I.ctx.ghost["checker"], "contracts.coord:FakeState5.type_check_second_pass": second_pass_contract,
+          "contracts.coord:FakeState5.finish_passes": noop, "contracts.coord:FakeState5.detect_possibly_undefined_vars": noop,
+          "mypy.build:DeferredNode": lambda I, a, k: SOpaque("deferred-node"), "contracts.coord:FakeTree5.local_definitions": lambda I, a, k: SList([])}
+    loops = {}
+    return [Target("coord.process_stale_scc_implementation.fresh_deferral_budget", "mypy.build:process_stale_scc_implementation", setup_budget,
+                   loop_body=("for id in stale", "checker = graph[id].type_checker()"), ensures=[("bodies-start-with-pass-zero-and-no-deferred-nodes", ens_budget)],
+                   raises=(), overrides=ov, field_types={}, loops=loops, note="one generic module; the checker arrives with an arbitrary pass counter and no deferred nodes")]
+
+
+# ---- worker.load_states 're-creates the full state of an SCC as it would have been in the coordinator':
+# imports_ignored (written to the cache meta) is recomputed from the tree for EVERY module of the batch,
+# whether or not the module has import errors to replay
+
+
+class FakeTree6:
+    pass
+
+
+class FakeErrors6:
+    def set_file(self, *a, **k):
+        raise NotImplementedError
+
+    def add_error_info(self, info):
+        raise NotImplementedError
+
+
+class FakeManager6:
+    errors: FakeErrors6
+
+
+class FakeState6:
+    pass
+
+
+def setup_load_states_iter(I):
+    mid = I.make(TStr(), "id")
+    st = I.new_object(FakeState6)
+    tree = I.new_object(FakeTree6)
+    tree.fields["imports"] = SList([])
+    tree.fields["ignored_lines"] = SDict([])
+    st.fields["tree"] = tree
+    st.fields["imports_ignored"] = SOpaque("what-the-broadcast-graph-said")
+    st.fields["xpath"] = I.make(TStr(), "xpath")
+    st.fields["options"] = I.make(TAny(), "options")
+    has_errors = I.ctx.choose(2, "module-has-import-errors?")
+    import_errors = SDict([(mid, SList([]))]) if has_errors else SDict([])
+    mgr = I.new_object(FakeManager6)
+    mgr.fields["errors"] = I.new_object(FakeErrors6)
+    return {"args": [], "locals": {"id": mid, "graph": SDict([(mid, st)]), "import_errors": import_errors, "manager": mgr, "mod_ids": SList([mid])}, "state": st}
+
+
+def ens_load_states_iter(I, env, res):
+    v = env["state"].fields.get("imports_ignored")
+    return z3.BoolVal(isinstance(v, SDict))
+
+
+def load_states_targets():
+    return [Target("worker.load_states.imports_ignored_recomputed", "mypy.build_worker.worker:load_states", setup_load_states_iter,
+                   loop_body=("for id in mod_ids", "import_lines = {imp.line for imp in state.tree.imports}"), ensures=[("imports-ignored-recomputed-for-every-module", ens_load_states_iter)],
+                   raises=(), overrides={"contracts.coord:FakeErrors6.set_file": noop, "contracts.coord:FakeErrors6.add_error_info": noop}, field_types={}, note="one generic module, with and without import errors to replay; the tree has no imports here (only THAT the field is recomputed is decided, not its value)")]
